@@ -9,8 +9,9 @@ from vf.core import Ctx, HarnessError, require, sut
 
 META = {
     "rule": "templates: shipped instances with <= 61 items (a*, beng*, "
-            "asqas*, cl*_020/040) and constructed instances (gen_bp size "
-            "classes tiny/small/medium/int8-edge, guillotine-cut k-bin "
+            "asqas*, cl*_020/040) and constructed instances (all nine gen_bp "
+            "size classes - bins above 10^9 are rejected by InstanceSpace "
+            "with ValueError = clean rejection -, guillotine-cut k-bin "
             "instances, tiny instances with <= 7 items, instances whose "
             "items are at most half the bin in both directions), stored in a fitting "
             "orientation in 7 of 8 draws (otherwise InstanceSpace may reject "
